@@ -468,6 +468,41 @@ pub(crate) mod verif_list {
         pub slots: Vec<usize>,
         /// (role, address) of every atomic in the node
         pub layout: Vec<(&'static str, usize)>,
+        /// The control word holds the idle value (no helping transaction open).
+        pub idle: bool,
+        /// The slots decoded: the address a slot owes a reference for (`None` = empty).
+        pub slot_addrs: Vec<Option<usize>>,
+    }
+
+    /// The internal encodings a verifier would otherwise have to hard-code.
+    #[derive(Clone, Copy, Debug)]
+    pub struct Encodings {
+        /// content of an empty slot
+        pub debt_none: usize,
+        /// mask of the bits of a slot's content that are not part of the address
+        pub debt_tag_mask: usize,
+        pub control_idle: usize,
+        pub control_tag_mask: usize,
+        pub control_gen_tag: usize,
+        pub control_replacement_tag: usize,
+        pub node_unused: usize,
+        pub node_used: usize,
+        pub node_cooldown: usize,
+    }
+
+    pub fn encodings() -> Encodings {
+        use super::super::helping as h;
+        Encodings {
+            debt_none: Debt::NONE,
+            debt_tag_mask: 0b11,
+            control_idle: h::IDLE,
+            control_tag_mask: h::TAG_MASK,
+            control_gen_tag: h::GEN_TAG,
+            control_replacement_tag: h::REPLACEMENT_TAG,
+            node_unused: NODE_UNUSED,
+            node_used: NODE_USED,
+            node_cooldown: NODE_COOLDOWN,
+        }
     }
 
     /// Snapshot of all nodes (newest first). Reads the real, mo-latest values.
@@ -537,6 +572,11 @@ pub(crate) mod verif_list {
                 in_use: self.in_use.load(Relaxed),
                 active_writers: self.active_writers.load(Relaxed),
                 control,
+                idle: control == super::super::helping::IDLE,
+                slot_addrs: slots
+                    .iter()
+                    .map(|&s| if s == Debt::NONE { None } else { Some(s & !0b11) })
+                    .collect(),
                 slots,
                 layout,
             }
